@@ -182,6 +182,12 @@ class FitsStream(Stream):
             v = gen.mutate_str(rng, v, 'ab\n' + tags[0][0] + tags[1][0])
             if rng.random() < 0.07:
                 v = rng.choice(els)           # the element's own text, delimiters included, offered as the value
+            if single and rng.random() < 0.04:
+                # segments that are no regular expressions on their own but would be once wrapped in a group
+                bad = rng.choice(['x' + tags[0] + 'a)|(.*' + tags[1], tags[0] + 'a)(b' + tags[1],
+                                  tags[0] + 'a(' + tags[1] + 'x' + tags[0] + 'b)' + tags[1]])
+                els = els + [bad] if rng.random() < 0.5 else [bad] + els
+                v = rng.choice(['xa', 'ab', 'zzz', 'axb', v])
             what = v if rng.random() < 0.97 else rng.choice([None, 5, ['a']])
             pol = {'uid': 1, 'effect': 'allow', 'subjects': [], 'resources': [],
                    'actions': [['s', e] for e in els], 'context': [], 'description': None, 'tags': list(tags)}
@@ -219,6 +225,9 @@ class FitsStream(Stream):
         try:
             want = spec_fits(els, st, en, v)
         except re.error:
+            # a segment that is not a regular expression on its own matches nothing: an error or "no", never "yes"
+            if obs == 'T' and not any(e == v for e in els if st not in e and en not in e):
+                return 'an element with a segment that is not a regular expression on its own was matched'
             return None
         if obs != s_bool(want):
             return 'whole-string split semantics says %s, checker answered %s' % (want, obs)
@@ -372,7 +381,7 @@ ASSUME = ['segments with back-references, look-around, inline flags or unbalance
 
 def main(argv):
     return run_check('C03', [CompileStream(), FitsStream(), CheckerHistoryStream()], argv, trusted_base=TRUSTED, assumptions=ASSUME,
-                     translated=('checker', 'parser'))
+                     translated=('checker', 'parser', 'policy'))
 
 
 if __name__ == '__main__':
